@@ -9,6 +9,9 @@ Decided clauses:
         sodium_stackzero wipes a local of the requested length the same way.
   R14.4 (E12 known-bits, contradiction rule) no carry of sodium_increment / sodium_add / sodium_sub /
         sodium_compare (C bodies) is identically zero.
+  R14.6 carry-flag typestate of the amd64 inline-assembly fast paths of increment / add / sub: every adc / sbb is
+        fed by a carry-producing instruction (add, adc, sub, sbb, stc ...) with only CF-preserving instructions in
+        between; inc / dec and logical instructions do not qualify.
   R14.5 carry-chain continuity: in the byte loops of sodium_increment / add / sub the loop-carried carry
         is recomputed from its previous value (data dependence of the next carry on the incoming one).
 NOT decided: the -1/0/1 value of sodium_compare, the values of the carries of increment/add/sub (and
@@ -215,3 +218,42 @@ def run(ctx, chk):
     # index: its next value must be computed from its current value (a borrow taken from a[i] - b[i] alone forgets an incoming
     # borrow whenever the two bytes are equal).
     knownbits.carry_continuity_rule(prog, chk, "R14.5", [("sodium_increment", None), ("sodium_add", None), ("sodium_sub", None)], floor=3)
+    # ---- R14.6 carry flag typestate of the inline-assembly fast paths ------------------------------------------------------
+    # Every adc / sbb consumes the carry flag: scanning back over instructions that leave CF alone (mov, lea, inc, dec, not,
+    # push, pop, nop, xchg), the nearest CF-affecting instruction must be one that *produces* the carry of the previous limb
+    # (add, adc, sub, sbb, neg) or sets it explicitly (stc / clc). `inc` / `dec` do not write CF, and xor / and / or / test
+    # clear it - an adc after those never sees the carry out of the lower limb.
+    PRESERVE = ("mov", "lea", "inc", "dec", "not", "push", "pop", "nop", "xchg", "bswap", "cmov", "set")
+    PRODUCE = ("add", "adc", "sub", "sbb", "neg", "stc", "clc", "cmp", "shl", "shr", "sal", "sar", "rcl", "rcr", "bt")
+    nasm = ncons = 0
+    for f in prog.functions():
+        if f.decl or f.unit != "sodium/utils.c":
+            continue
+        for i, ins in enumerate(f.insts):
+            cal = ins.get("callee")
+            if ins["op"] != "call" or not cal or cal[0] != "asm":
+                continue
+            text = cal[1]
+            lines = [l.strip() for l in text.replace(";", "\n").split("\n") if l.strip()]
+            mns = [l.split()[0].lower() for l in lines]
+            if not mns:
+                continue
+            nasm += 1
+            for k, mn in enumerate(mns):
+                if not mn.startswith(("adc", "sbb")):
+                    continue
+                ncons += 1
+                src = None
+                for prev in reversed(mns[:k]):
+                    if prev.startswith(PRESERVE):
+                        continue
+                    src = prev
+                    break
+                ok = src is not None and src.startswith(PRODUCE)
+                chk.ob("R14.6", f, "`%s` in the inline assembly at %s consumes a carry produced by the previous limb" % (mn, f.loc(i)), ok,
+                       loc=f.loc(i), detail="" if ok else ("no carry-producing instruction precedes it in the block" if src is None else
+                                                           "the nearest flag-writing instruction before it is `%s`, which does not leave "
+                                                           "the previous limb's carry in CF" % src) +
+                       (" (inc / dec leave CF unchanged)" if any(m.startswith(("inc", "dec")) for m in mns[:k]) else ""),
+                       key="R14.6 %s" % f.sname)
+    chk.floor("R14.6", "adc / sbb instructions in the inline assembly of sodium/utils.c", ncons, 0 if chk.relaxed else 10)
